@@ -108,6 +108,7 @@ def gen(rng, tier, idx):
         cfg = dict(mgr='handler', nprocs=nprocs, shape=shape, layouts=layouts, P=int(np.prod(nprocs)))
         names = [n for n, _ in layouts]
     cfg['save'] = rng.random() < 0.75
+    cfg['default_comm'] = rng.random() < 0.3
     cfg['dtype'] = rng.choice(['float64', 'complex128'])
     cfg['start'] = rng.choice(names)
     hist = []
@@ -148,7 +149,10 @@ def run(case, tape=None):
         else:
             mgr = c03.build_swapper(comm, case)
         eta = [np.arange(n, dtype=float) for n in shape]
-        grid = Grid(eta, [], mgr, case['start'], comm, dtype=dt, allocateSaveMemory=case['save'])
+        if case.get('default_comm'):
+            grid = Grid(eta, [], mgr, case['start'], dtype=dt, allocateSaveMemory=case['save'])     # comm=MPI.COMM_WORLD
+        else:
+            grid = Grid(eta, [], mgr, case['start'], comm, dtype=dt, allocateSaveMemory=case['save'])
         salt = 0
         G = cm.global_array(shape, case['dtype'], salt)
         grid.getAllData()[:] = cm.local(G, mgr.getLayout(case['start']))
